@@ -932,9 +932,29 @@ def _split(repo, col):
         terms += [t_ for t_ in (s_.value, s_.key) if t_ is not None] + list(s_.guards)
     terms += list(ex.returns)
 
+    def contentish(x):
+        """the rows of the table, possibly copied into a list, shifted by one (`rows[:-1]`, `[None] + rows[:-1]`)"""
+        if x.op == "param":
+            return x.name == fi.params[0]
+        if x.op == "call" and x.name in ("list", "tuple", "iter", "asarray", "array") and x.args:
+            return contentish(x.args[0])
+        if x.op == "sub" and x.args[1].op in ("slice", "call") and (x.args[1].op == "slice" or x.args[1].name == "slice"):
+            return contentish(x.args[0])
+        if x.op == "binop" and x.name == "+":
+            return any(contentish(a_) for a_ in x.args) and all(contentish(a_) or T.find(a_, lambda y: y.op == "param") is None for a_ in x.args)
+        return False
+
+    def is_row(x):
+        if x.op == "elem" and x.args:
+            return contentish(x.args[0])
+        if x.op == "item" and x.args and x.args[0].op == "elem" and x.args[0].args and x.args[0].args[0].op == "call" and x.args[0].args[0].name == "zip":
+            za = x.args[0].args[0].args
+            return isinstance(x.name, int) and x.name < len(za) and contentish(za[x.name])
+        return False
+
     def column_of(t_):
         """k if t_ is column k of the current row(s): each(content)[k] / content[:, k][...]"""
-        if t_.op == "sub" and t_.args[0].op == "elem" and t_.args[0].args[0].op == "param" and t_.args[0].args[0].name == fi.params[0]:
+        if t_.op == "sub" and is_row(t_.args[0]):
             k = t_.args[1]
             return -k.args[0].name if (k.op == "unary" and k.name == "USub" and k.args[0].op == "const") else (k.name if k.op == "const" else None)
         if t_.op == "sub" and t_.args[0].op == "sub":
@@ -968,6 +988,9 @@ def _split(repo, col):
                     return None
                 out |= r_
             return out
+        if g.op == "cmp" and len(g.args) == 2 and ((g.name in ("is", "==") and not neg) or (g.name in ("is not", "!=") and neg)) and \
+                any(is_row(a_) for a_ in g.args) and any(a_.op == "const" and a_.name is None for a_ in g.args):
+            return set()  # `previous row is None`: the first row, which starts a section under every form of the condition
         if g.op == "cmp" and len(g.args) == 2 and ((g.name == "!=" and not neg) or (g.name == "==" and neg)) and \
                 not any(a_.op == "const" or (a_.op == "unary" and a_.args[0].op == "const") for a_ in g.args):
             ks = set()
